@@ -185,8 +185,38 @@ def impl(case):
     raise C.Infra("unknown fn")
 
 
+def _best_sets(case):
+    """Per group of candidates: the test-block sets whose exact imbalance metric is minimal (ties are legitimate: the code
+    compares float metrics, so among exactly tied candidates either may be 'the best')."""
+    a = case["args"]
+    es, ns, shape, spacing, nsplits, test_size, train_size, seed, balancing = a
+    labels = _labels(es, ns, shape, spacing)
+    ids = sorted(set(labels))
+    sizes = {}
+    for l in labels:
+        sizes[l] = sizes.get(l, 0) + 1
+    sp = list(ShuffleSplit(n_splits=nsplits * balancing, test_size=test_size, train_size=train_size, random_state=seed).split(np.arange(len(ids))))
+    out = []
+    for g in range(nsplits):
+        ms = []
+        for trb, teb in sp[g * balancing:(g + 1) * balancing]:
+            trp = sum(sizes[ids[j]] for j in trb)
+            tep = sum(sizes[ids[j]] for j in teb)
+            ms.append((abs(C.fq(trp) / tep - C.fq(len(trb)) / len(teb)), frozenset(ids[j] for j in teb)))
+        best = min(m for m, _ in ms)
+        out.append((best, [t for m, t in ms if m == best], labels))
+    return out
+
+
 def compare(case, io, mo):
     r = C.std_compare(io, mo, tol=0.0)
+    if r != "ok" and case["fn"] == "shuffle" and not C.is_err(io) and not C.is_err(mo):
+        try:
+            bs = _best_sets(case)
+            if len(io) == len(bs) and all(frozenset(bs[g][2][i] for i in te) in bs[g][1] for g, (tr, te) in enumerate(io)):
+                return "amb"      # an exactly tied candidate was selected (float tie-break)
+        except Exception:  # noqa: BLE001
+            pass
     if r != "ok" and case["fn"] != "partition" and not C.is_err(io):
         a = case["args"]
         if B.near_tie(a[0], a[1], None, a[2], a[3], "spacing"):
@@ -286,18 +316,11 @@ def oracle(case, io):
             ntest_blocks = len(set(labels[i] for i in te))
             if ntest_blocks != len(exp_splits[0][1]):
                 return f"split {g} tests {ntest_blocks} blocks; test_size/train_size prescribe {len(exp_splits[0][1])}"
-            group = exp_splits[g * balancing:(g + 1) * balancing]
-            best, bestm = None, None
-            for trb, teb in group:
-                trp = sum(sizes[ids[j]] for j in trb)
-                tep = sum(sizes[ids[j]] for j in teb)
-                m = abs(C.fq(trp) / tep - C.fq(len(trb)) / len(teb))
-                if bestm is None or m < bestm:
-                    best, bestm = set(ids[j] for j in teb), m
-            got = set(labels[i] for i in te)
-            if got != best:
-                return (f"split {g} tests blocks {sorted(got)} but the first best point-balanced of its {balancing} candidates "
-                        f"tests {sorted(best)} (metric {float(bestm)})")
+            bestm, best_sets, _ = _best_sets(case)[g]
+            got = frozenset(labels[i] for i in te)
+            if got not in best_sets:
+                return (f"split {g} tests blocks {sorted(got)} but the best point-balanced of its {balancing} candidates "
+                        f"test {[sorted(b) for b in best_sets]} (metric {float(bestm)})")
         return None
     return None
 
